@@ -181,7 +181,8 @@ where
                 // it's not => check capicity
                 if size < self.k {
                     // space left => add to top k
-                    debug_assert!(count == 1);
+                    // (the sketch may already overestimate a first-seen element because of collisions, so `count`
+                    // is not necessarily 1 here; the exact count is)
                     v.insert(1);
                     self.tree.insert(TreeEntry {
                         obj: Rc::clone(&rc),
